@@ -52,8 +52,10 @@ TraceStep ==
 
 Silent == (AttemptSucceed \/ AttemptFail \/ ScanNext) /\ UNCHANGED l
 
+(* the column claim is for ASCII texts (the engine counts characters)        *)
+AsciiText == \A j \in 1..Len(Text) : Text[j] < 128
 SameMatch(a, b) ==
-  /\ a.s = b.s /\ a.e = b.e /\ a.n = b.n /\ a.ls = b.ls /\ a.le = b.le /\ a.cs = b.cs /\ a.ce = b.ce
+  /\ a.s = b.s /\ a.e = b.e /\ a.n = b.n /\ a.ls = b.ls /\ a.le = b.le /\ (AsciiText => a.cs = b.cs /\ a.ce = b.ce)
   /\ DOMAIN a.vars = DOMAIN b.vars /\ \A x \in DOMAIN a.vars : a.vars[x] = b.vars[x]
 
 (* the run ended: the engine's result list is the machine's queue           *)
